@@ -211,5 +211,54 @@ def split_top_level(body, sep=';'):
             out.append((body[last:i], True))
             last = i + 1
     rest = body[last:]
+    if sep == ';':
+        # block-like expression statements (`if .. { } [else { }]`, `match .. { }`, `for/while/loop .. { }`, `{ }`)
+        # end at their closing brace when more text follows
+        while True:
+            m = re.match(r'\s*(?:if|match|for|while|loop|unsafe|\{)', strip_leading_comments(rest))
+            if not m:
+                break
+            off = len(rest) - len(strip_leading_comments(rest))
+            rcode = _scan_mask(rest)
+            j = off
+            end = None
+            while True:
+                # find next top-level '{'
+                depth = 0
+                k = j
+                while k < len(rest) and not (rcode[k] and rest[k] == '{' and depth == 0):
+                    if rcode[k] and rest[k] in '([':
+                        depth += 1
+                    elif rcode[k] and rest[k] in ')]':
+                        depth -= 1
+                    k += 1
+                if k >= len(rest):
+                    break
+                cb = match_brace(rest, rcode, k)
+                end = cb + 1
+                m2 = re.match(r'\s*else\b', rest[end:])
+                if m2:
+                    j = end + m2.end()
+                    continue
+                break
+            if end is None or not strip_comments(rest[end:]).strip():
+                break
+            if re.match(r'\s*[.?]', rest[end:]):
+                break  # method call on the block value: it is an expression, not a statement
+            out.append((rest[:end], True))
+            rest = rest[end:]
     out.append((rest, False))
     return out
+
+
+def strip_leading_comments(t):
+    while True:
+        t2 = t.lstrip()
+        if t2.startswith('//'):
+            nl = t2.find('\n')
+            t = t2[nl + 1:] if nl >= 0 else ''
+        elif t2.startswith('/*'):
+            e = t2.find('*/')
+            t = t2[e + 2:] if e >= 0 else ''
+        else:
+            return t2
